@@ -6,6 +6,6 @@ WT="$1"; P="$2"; ID="$3"; shift 3
 cd "$WT" || exit 2
 git checkout -q -- . ; git clean -q -fd -e _seeded
 git apply "$P" || { echo "patch does not apply"; exit 2; }
-cd /verif && VERIF_REPO="$WT" ./check "$ID" quick --no-evidence "$@" 2>&1 | grep -E "^(VIOLATION|violation|minimised|HARNESS|KNOWN|C[0-9]+:|C20 tags)" | cut -c1-700
+cd /verif && VERIF_REPO="$WT" ./check "$ID" quick --no-evidence "$@" 2>&1 | grep -a -E "^(VIOLATION|violation|minimised|HARNESS|KNOWN|C[0-9]+:|C20 tags)" | cut -c1-700
 cd "$WT" && git checkout -q -- . && git clean -q -fd -e _seeded
 echo "worktree reverted"
